@@ -61,6 +61,21 @@ class Protocol(Component):
             if getattr(args[0], 'node_call_id', False) is not False:
                 self.send_result(source_event.node_call_id, source_event.value)
 
+    @handler('exception', channel='*', priority=100)
+    def failure_handler(self, etype, evalue, traceback, handler=None, fevent=None):
+        # a handler of a call this protocol received has raised: there will be
+        # no <name>_success, so tell the caller (error flag set, the error as
+        # text) instead of leaving it waiting for ever
+        if getattr(fevent, 'node_protocol', None) is not self:
+            return
+
+        if getattr(fevent, 'node_call_id', False) is not False:
+            value = Value(fevent, self)
+            value.errors = True
+            # (type and message only: the traceback stays on this side)
+            value.value = [getattr(etype, '__name__', str(etype)), str(evalue)]
+            self.send_result(fevent.node_call_id, value)
+
     def send(self, event):
         if self.__send_event_firewall and not self.__send_event_firewall(event, self.__sock):
             yield Value(event, self)
